@@ -6,7 +6,7 @@
 (*   ids  explicit row ids of T (<<>> = 1..n)        t  rows of T: <<code of A, code of B>>        *)
 (*   q    query <<[c |-> column, v |-> <<codes>>]>>  f/p  formulas / private flags                 *)
 (*   e    with an empty q: pass {} (TRUE) or None (FALSE)                                           *)
-(* Families (Fams) are unions of fully enumerated sub-spaces, see QuickFams / ThoroughFams.         *)
+(* Families (Fams, a sequence) are fully enumerated sub-spaces, see QuickFams / ThoroughFams.         *)
 (* SpecSane: the admissible-output relation accepts the reference solution, which is written in a   *)
 (* different formulation (canonical keys, scan by candidate id) - on every input with a modelled    *)
 (* table.  The input space and the value universe are written to OUT_FILE.                          *)
@@ -24,7 +24,7 @@ Fam(r, ca, cb, qa, na, qb, nb, fl) ==
 \* r: max rows; ca/cb: cell codes of A/B (cb = {}: B holds the distinct codes 0,1,2 by position);
 \* qa/na: query codes and max number of values for A (na = -1: A is not queried); same for B;
 \* fl: values of the formulas flag
-QuickFams == {
+QuickFams == <<
   Fam(1, U9,  {},  U9,  2, {},  -1, {TRUE}),        \* one queried column, whole universe
   Fam(2, U9,  {},  U9,  1, {},  -1, {TRUE}),
   Fam(1, U9,  {},  U9,  1, {},  -1, {FALSE}),       \* ... without formulas
@@ -32,8 +32,8 @@ QuickFams == {
   Fam(1, Mix, Mix, Mix, 2, Mix,  2, {TRUE}),        \* two queried columns: conjunction, set/list paths
   Fam(2, Mix, Mix, Mix, 1, Mix,  1, {TRUE}),
   Fam(1, U9,  U9,  U9,  1, U9,   1, {TRUE}),        \* two queried columns, whole universe, one row
-  Fam(2, Mix, {},  {}, -1, {},  -1, BOOLEAN) }      \* no query / empty query
-ThoroughFams == {
+  Fam(2, Mix, {},  {}, -1, {},  -1, BOOLEAN) >>     \* no query / empty query
+ThoroughFams == <<
   Fam(3, U9,  {},  U9,  2, {},  -1, {TRUE}),
   Fam(2, U9,  {},  U9,  2, {},  -1, {FALSE}),
   Fam(2, {5}, U9,  {}, -1, U9,   2, BOOLEAN),
@@ -41,7 +41,7 @@ ThoroughFams == {
   Fam(3, Mix, Mix, Mix, 1, Mix,  1, {TRUE}),
   Fam(1, U9,  U9,  U9,  2, U9,   1, {TRUE}),
   Fam(1, U9,  U9,  U9,  1, U9,   2, {TRUE}),
-  Fam(3, Mix, {},  {}, -1, {},  -1, BOOLEAN) }
+  Fam(3, Mix, {},  {}, -1, {},  -1, BOOLEAN) >>
 
 TablesOf(fm) ==
   UNION { { [k \in 1..n |-> <<a[k], IF fm.cb = {} THEN k - 1 ELSE b[k]>>] :
@@ -77,7 +77,13 @@ Kinds ==
      f \in BOOLEAN, p \in BOOLEAN}
 KindsValid == {k \in Kinds : k.q \in KQ(k.tab, k.x) /\ (k.tab # "T" => k.ids = <<>>)}
 
-Valid == (UNION {InputsOf(fm) : fm \in Fams}) \cup KindsValid
+\* The families overlap (e.g. the empty table), and TLC's union of large sets of records is
+\* quadratic: the input space is never built as one set.  Init is a disjunction over the families
+\* (equal inputs are one state) and the JSON file is the concatenation of the families' inputs
+\* (the harness drops the repeated ones).
+RECURSIVE AllInputsFrom(_)
+AllInputsFrom(k) == IF k > Len(Fams) THEN SetToSeq(KindsValid)
+                    ELSE SetToSeq(InputsOf(Fams[k])) \o AllInputsFrom(k + 1)
 
 \* ---------------------------------------------------------------------------------------------
 \* Model of what the engine holds for table T (columns of type Any store the raw value)
@@ -113,10 +119,11 @@ ASSUME ~PyEq(Val(4), Val(5)) /\ ~PyEq(Val(6), Val(0)) /\ ~PyEq(Val(6), Val(4)) /
 ASSUME PyEq(Val(7), Val(30)) /\ PyEq(Val(8), Val(31)) /\ ~PyEq(Val(8), Val(32)) /\ ~PyEq(Val(28), Val(1))
 
 ASSUME "OUT_FILE" \in DOMAIN IOEnv
-       => JsonSerialize(IOEnv.OUT_FILE, [U |-> Universe, inputs |-> SetToSeq(Valid)])
+       => JsonSerialize(IOEnv.OUT_FILE, [U |-> Universe, inputs |-> AllInputsFrom(1)])
 
 VARIABLE input
-Init == input \in Valid
+Init == \/ input \in KindsValid
+        \/ \E k \in 1..Len(Fams) : input \in InputsOf(Fams[k])
 Next == UNCHANGED input
 SpecSane ==
   input.tab = "T" =>
